@@ -14,7 +14,7 @@
    on the implementation by the mixture oracle of this check. *)
 From Coq Require Import List NArith ZArith QArith Arith Bool.
 From Coq Require Import Permutation.
-From PG Require Import Common.Strs Ring.Peg Ring.Reader Ring.Reader_proofs Graph.Mol Graph.Match Graph.Match_proofs Graph.Embed Graph.Embed_inst Graph.Centres_proofs Graph.Centres_equiv Graph.Scheme Graph.SchemeLoad Graph.Scheme_proofs Gen.Schemes.
+From PG Require Import Common.Strs Ring.Peg Ring.Reader Ring.Reader_proofs Graph.Mol Graph.Match Graph.Match_proofs Graph.Embed Graph.Embed_inst Graph.Centres_proofs Graph.Centres_equiv Graph.Scheme Graph.SchemeLoad Graph.Scheme_proofs Graph.Remap_proofs Graph.Descr_equiv Gen.Schemes.
 Import ListNotations.
 
 (* no shipped pattern or descriptor has a molecule-level prefix (part of scheme_ok) *)
@@ -87,3 +87,31 @@ Proof. vm_compute. split; reflexivity. Qed.
 Theorem C04_dict_add_get : forall d k v k',
   dict_get (dict_add d k v) k' == (if str_eqb k k' then dict_get d k' + v else dict_get d k').
 Proof. exact dict_add_get. Qed.
+
+(* ---------- the descriptor dictionary of a mixture ---------- *)
+(* correction descriptors (distinct matched atom sets, then remaps): the sum over the components *)
+Theorem C04_correction_descriptors_additive : forall m1 m2 sch, wf_mol m1 -> wf_mol m2 -> wf_rings m1 -> wf_rings m2 ->
+  (forall ds, In ds (s_descr sch) -> good_frag (d_frag ds)) -> chain_free (s_remaps sch) ->
+  forall k, dict_get (assign_descr sch (union m1 m2)) k == dict_get (assign_descr sch m1) k + dict_get (assign_descr sch m2) k.
+Proof. intros m1 m2 sch W1 W2 R1 R2 Gd CF. exact (assign_descr_union m1 m2 W1 W2 R1 R2 sch Gd CF). Qed.
+Print Assumptions C04_correction_descriptors_additive.
+
+(* groups (centre name + neighbours' peripheral names, then remaps): the sum over the components *)
+Theorem C04_groups_additive : forall m1 m2 sch, wf_mol m1 -> wf_mol m2 -> wf_rings m1 -> wf_rings m2 ->
+  chain_free (s_remaps sch) -> forall nm1 nm2, length nm1 = natom m1 -> length nm2 = natom m2 ->
+  forall k, dict_get (assign_groups sch (union m1 m2) (nm1 ++ nm2)) k
+            == dict_get (assign_groups sch m1 nm1) k + dict_get (assign_groups sch m2 nm2) k.
+Proof. intros m1 m2 sch W1 W2 R1 R2 CF nm1 nm2 L1 L2. exact (assign_groups_union m1 m2 W1 W2 R1 R2 sch CF nm1 nm2 L1 L2). Qed.
+Print Assumptions C04_groups_additive.
+
+(* the returned dictionary: groups.update(descriptors) REPLACES a group count by the correction-descriptor count of the
+   same name, so the whole dictionary is additive exactly when no correction-descriptor name that occurs is also a group
+   name that occurs (names_apart); the centre names of the mixture are nm1 ++ nm2 by C04_centres_of_mixture *)
+Theorem C04_descriptors_additive : forall m1 m2 sch, wf_mol m1 -> wf_mol m2 -> wf_rings m1 -> wf_rings m2 ->
+  (forall ds, In ds (s_descr sch) -> good_frag (d_frag ds)) -> chain_free (s_remaps sch) ->
+  forall nm1 nm2, length nm1 = natom m1 -> length nm2 = natom m2 ->
+  names_apart m1 m2 sch nm1 nm2 ->
+  forall k, dict_get (descriptors_of sch (union m1 m2) (nm1 ++ nm2)) k
+            == dict_get (descriptors_of sch m1 nm1) k + dict_get (descriptors_of sch m2 nm2) k.
+Proof. intros m1 m2 sch W1 W2 R1 R2 Gd CF nm1 nm2 L1 L2. exact (descriptors_union m1 m2 W1 W2 R1 R2 sch Gd CF nm1 nm2 L1 L2). Qed.
+Print Assumptions C04_descriptors_additive.
